@@ -51,7 +51,7 @@ class Frame:
 
 class Alt:
     """one guarded alternative of a thread"""
-    __slots__ = ("guard", "frames", "thread", "nalloc", "nspawn", "ov", "status", "panic", "resume", "opt", "ninstr", "info")
+    __slots__ = ("guard", "frames", "thread", "nalloc", "nspawn", "ov", "status", "panic", "resume", "opt", "ninstr", "info", "rd", "ack", "pending", "dead")
 
     def __init__(self, thread, guard):
         self.thread = thread
@@ -66,6 +66,10 @@ class Alt:
         self.opt = None
         self.ninstr = 0
         self.info = None
+        self.rd = set()
+        self.ack = None
+        self.pending = None
+        self.dead = None
 
     def copy(self):
         a = Alt(self.thread, self.guard)
@@ -77,10 +81,14 @@ class Alt:
         a.resume = self.resume
         a.opt = self.opt
         a.ninstr = self.ninstr
+        a.info = self.info
+        a.rd = set(self.rd)
+        a.ack = self.ack
+        a.pending = self.pending
         return a
 
     def loc(self):
-        return tuple(f.loc() for f in self.frames)
+        return (tuple(f.loc() for f in self.frames), self.ack)
 
 
 class Thread:
@@ -111,15 +119,19 @@ HANDOFF = ("g", "$handoff")
 class Machine:
     def __init__(self, prog, max_instr=400000, check_timeout_ms=20000):
         self.prog = prog
-        self.heap = {HANDOFF: None}
+        self.heap = {}
         self.threads = []
         self.thread_by_key = {}
-        self.solver = z3.Solver()
+        self.check_timeout_ms = check_timeout_ms
+        self.solver = z3.SolverFor("QF_BV")
         self.solver.set("timeout", check_timeout_ms)
+        self.nchecks_since_reset = 0
+        self.fresh_checks = True
         self.constraints = []
         self.violations = []   # (kind, formula, msg, pos, step)
         self.log = []          # (step, seq, guard, tid, tag, args)
         self.reached = {}      # label -> formula
+        self.asserted = set()  # messages of all assertions evaluated (also those that were concretely true)
         self.nondets = {}      # name -> z3 const
         self.nd_count = {}
         self.step = 0
@@ -137,7 +149,9 @@ class Machine:
         self.map_perm = False
         self.live_cache = {}
         self.on_return_handlers = {}
+        self.quiet = {}   # visible intrinsic -> predicate(m, alt, args): may run without a scheduling point
         self.models = []
+        self.debug_slow = bool(__import__("os").environ.get("GOBMC_SLOW"))
         import intrinsics
         intrinsics.install(self)
 
@@ -213,6 +227,15 @@ class Machine:
         return v
 
     # ------------------------------------------------------------------ solver helpers
+    def reset_solver(self):
+        """z3's incremental state degrades over hundreds of check-sat-assuming calls (measured: 50x);
+        a fresh solver with the same assertions is rebuilt at every scheduling step"""
+        self.solver = z3.SolverFor("QF_BV")
+        self.solver.set("timeout", self.check_timeout_ms)
+        if self.constraints:
+            self.solver.add(*self.constraints)
+        self.nchecks_since_reset = 0
+
     def add_constraint(self, c):
         c = _n(c)
         if c is True:
@@ -250,11 +273,32 @@ class Machine:
                 self.feas_cache[key] = (True, f)
                 self.stats["solver_s"] += time.time() - t0
                 return True
-        res = self.solver.check(f)
+        t1 = time.time()
+        if self.fresh_checks:
+            s1 = z3.Solver()
+            s1.set("timeout", self.check_timeout_ms)
+            s1.add(*self.constraints)
+            s1.add(f)
+            res = s1.check()
+            self.solver_last = s1
+        else:
+            self.nchecks_since_reset += 1
+            if self.nchecks_since_reset > 40:
+                self.reset_solver()
+            res = self.solver.check(f)
+            self.solver_last = self.solver
+        if time.time() - t1 > 3 and self.debug_slow and not getattr(self, "_dumped", False):
+            self._dumped = True
+            s2 = z3.Solver()
+            s2.add(*self.constraints)
+            s2.add(f)
+            open("/tmp/slow.smt2", "w").write(s2.to_smt2())
+        if time.time() - t1 > 0.3 and self.debug_slow:
+            print("    slow check %.2fs -> %s  (step %d, f=%s)" % (time.time() - t1, res, self.step, str(f)[:150].replace("\n", " ")), flush=True)
         self.stats["solver_checks"] += 1
         r = (res != z3.unsat)
         if res == z3.sat:
-            self.models.insert(0, [self.solver.model(), len(self.constraints)])
+            self.models.insert(0, [self.solver_last.model(), len(self.constraints)])
             del self.models[12:]
         self.stats["solver_s"] += time.time() - t0
         self.feas_cache[key] = (r, f)
@@ -264,6 +308,7 @@ class Machine:
     def hget(self, alt, obj):
         v = alt.ov.get(obj, _MISSING)
         if v is _MISSING:
+            alt.rd.add(obj)
             v = self.heap.get(obj, _MISSING)
             if v is _MISSING:
                 if obj[0] == "g":
@@ -443,12 +488,19 @@ class Machine:
             try:
                 r = h(self, alt, fr, ins, work)
             except _Panicked:
-                r = None
                 if alt.status == "panicked":
                     return
                 continue
             except _Retry:
                 continue
+            except _Dead:
+                raise
+            except Exception as e:
+                if not getattr(e, "_annotated", False):
+                    e._annotated = True
+                    st = " <- ".join("%s@%s" % (f.fn.name.rsplit("/", 1)[-1], f.fn.blocks[f.blk]["instrs"][min(f.idx, len(f.fn.blocks[f.blk]["instrs"]) - 1)].get("pos", "")) for f in reversed(alt.frames[-6:]))
+                    e.args = (("%s  [at %s %s: %s]" % (e.args[0] if e.args else "", ins["op"], ins.get("pos"), st)),) + tuple(e.args[1:])
+                raise
             if r is PARK:
                 alt.status = "parked"
                 return
@@ -1460,7 +1512,7 @@ def i_makechan(m, alt, fr, ins, work):
     n = m.ev(alt, fr, ins["size"])
     if not is_int_conc(n):
         m.concretize(alt, fr, ins["size"], work, range(0, 33))
-    obj = m.new_obj(alt, (n, (), False), disc=n)
+    obj = m.new_obj(alt, (n, (), False, False), disc=n)
     fr.regs[ins["r"]] = Chan(obj)
     fr.idx += 1
 
@@ -1481,10 +1533,16 @@ def dispatch_call(m, alt, fr, ins, name, args, fv, work):
     intr = m.intrinsics.get(name)
     if intr is None and type(name) is str:
         base = name.rsplit(".", 1)[-1]
-        if base.startswith("verif"):
+        if base.startswith("verifPush"):
+            intr = m.intrinsics.get("$verifPush")
+        elif base.startswith("verif"):
             intr = m.intrinsics.get("$" + base)
     if intr is not None:
         vis, f = intr
+        if vis and not alt.resume:
+            qv = m.quiet.get(name)
+            if qv is not None and qv(m, alt, args):
+                vis = False
         if vis:
             if not alt.resume:
                 alt.info = (name, args)
@@ -1523,6 +1581,10 @@ def invoke_deferred_norm(m, alt, fr, d):
     if intr is not None:
         vis, f = intr
         # deferred intrinsic (Unlock, Done, close...): executed as its own (visible) operation
+        if vis and not alt.resume:
+            qv = m.quiet.get(name)
+            if qv is not None and qv(m, alt, args):
+                vis = False
         if vis:
             if not alt.resume:
                 fr.defers.append(d)
@@ -1687,11 +1749,14 @@ def i_go(m, alt, fr, ins, work):
     if call["mode"] == "builtin":
         raise Unsupported("go builtin")
     name, args, fv = m.resolve_callee(alt, fr, call, work)
+    site = ("go", fr.fn.name, fr.blk, fr.idx)
+    n = alt.nalloc.get(site, 0) + 1
+    alt.nalloc[site] = n
     alt.nspawn += 1
-    key = (alt.thread.tid, alt.nspawn)
+    key = (alt.thread.tid, site, n)
     th = m.thread_by_key.get(key)
     if th is None:
-        th = Thread(len(m.threads), "%s/%d" % (alt.thread.name, alt.nspawn))
+        th = Thread(len(m.threads), "%s/%d" % (alt.thread.name, len([k for k in m.thread_by_key if k[0] == alt.thread.tid]) + 1))
         th.fname = name if type(name) is str else repr(name)
         m.threads.append(th)
         m.thread_by_key[key] = th
@@ -1709,40 +1774,49 @@ def chan_state(m, alt, ch):
 
 
 def handoff_free(m, alt):
-    h = m.hget(alt, HANDOFF)
-    return eq_vals(m, h, None)
+    return True
 
 
-def handoff_is(m, alt, ch):
-    h = m.hget(alt, HANDOFF)
-    return eq_vals(m, h, ch)
+def slot_full(m, alt, ch):
+    """unbuffered channel holding a value that a sender has put and nobody has taken yet"""
+    if ch is None:
+        return False
+    cap, buf, closed, busy = chan_state(m, alt, ch)
+    if cap != 0:
+        return False
+    return OR(*[g for g, b in alts_of(buf) if len(b) > 0])
 
 
 def recv_ready(m, alt, ch):
     """formula: a receive on plain channel ch can complete now"""
     if ch is None:
         return False
-    cap, buf, closed = chan_state(m, alt, ch)
+    cap, buf, closed, busy = chan_state(m, alt, ch)
     nonempty = OR(*[g for g, b in alts_of(buf) if len(b) > 0])
-    if cap == 0:
-        return OR(AND(nonempty, handoff_is(m, alt, ch)), AND(closed, NOT(nonempty), handoff_free(m, alt)))
-    return AND(handoff_free(m, alt), OR(nonempty, closed))
+    return OR(nonempty, closed)
 
 
 def send_ready(m, alt, ch, waiters):
+    """buffered: room (or closed -> panics); unbuffered: phase 1 of the rendezvous (put) needs a parked
+    receiver and no other sender in flight"""
     if ch is None:
         return False
-    cap, buf, closed = chan_state(m, alt, ch)
+    cap, buf, closed, busy = chan_state(m, alt, ch)
     if cap == 0:
         empty = OR(*[g for g, b in alts_of(buf) if len(b) == 0])
-        return AND(handoff_free(m, alt), OR(closed, AND(empty, waiters(ch))))
+        return OR(closed, AND(empty, NOT(busy), waiters(ch)))
     room = OR(*[g for g, b in alts_of(buf) if len(b) < cap])
-    return AND(handoff_free(m, alt), OR(closed, room))
+    return OR(closed, room)
+
+
+def ack_ready(m, alt, ch):
+    cap, buf, closed, busy = chan_state(m, alt, ch)
+    return OR(*[g for g, b in alts_of(buf) if len(b) == 0])
 
 
 def do_recv(m, alt, ch, zero):
     """perform the receive on plain channel ch; returns (value, ok)"""
-    cap, buf, closed = chan_state(m, alt, ch)
+    cap, buf, closed, busy = chan_state(m, alt, ch)
     outs = []
     nb = []
     for g, b in alts_of(buf):
@@ -1758,24 +1832,26 @@ def do_recv(m, alt, ch, zero):
         ok = OR(*[g for g, x in r.alts if x[1]])
     else:
         val, ok = r
-    m.hset(alt, ch.obj, (cap, mk_union(nb), closed))
-    if cap == 0:
-        h = m.hget(alt, HANDOFF)
-        m.hset(alt, HANDOFF, merge(eq_vals(m, h, ch), None, h))
+    m.hset(alt, ch.obj, (cap, mk_union(nb), closed, busy))
     return val, ok
 
 
 def do_send(m, alt, ch, v, pos):
-    cap, buf, closed = chan_state(m, alt, ch)
+    """returns True when the sender has to wait for the receiver (unbuffered: phase 2)"""
+    cap, buf, closed, busy = chan_state(m, alt, ch)
     if closed is True:
         m.do_panic(alt, Opaque("send on closed channel"), pos)
         raise _Panicked()
     if closed is not False:
         m.sym_panic(alt, closed, "send on closed channel", pos)
     nb = mk_union([(g, b + (v,)) for g, b in alts_of(buf)])
-    m.hset(alt, ch.obj, (cap, nb, closed))
-    if cap == 0:
-        m.hset(alt, HANDOFF, ch)
+    m.hset(alt, ch.obj, (cap, nb, closed, True if cap == 0 else busy))
+    return cap == 0
+
+
+def do_ack(m, alt, ch):
+    cap, buf, closed, busy = chan_state(m, alt, ch)
+    m.hset(alt, ch.obj, (cap, buf, closed, False))
 
 
 def i_send(m, alt, fr, ins, work):
@@ -1783,12 +1859,19 @@ def i_send(m, alt, fr, ins, work):
         alt.info = None
         return PARK
     alt.resume = False
+    if alt.ack is not None:
+        do_ack(m, alt, alt.ack)
+        alt.ack = None
+        fr.idx += 1
+        return
     ch = m.ev(alt, fr, ins["chan"])
     if type(ch) is Union:
         alt.resume = True
         m.split_reg(alt, fr, ins["chan"], work)
     v = m.ev(alt, fr, ins["x"])
-    do_send(m, alt, ch, v, ins["pos"])
+    if do_send(m, alt, ch, v, ins["pos"]):
+        alt.ack = ch
+        return PARK
     fr.idx += 1
 
 
@@ -1813,6 +1896,13 @@ def i_select(m, alt, fr, ins, work):
         alt.info = None
         return PARK
     alt.resume = False
+    if alt.ack is not None:
+        do_ack(m, alt, alt.ack)
+        alt.ack = None
+        fr.regs[ins["r"]] = alt.pending
+        alt.pending = None
+        fr.idx += 1
+        return
     states = ins["states"]
     i = alt.opt
     alt.opt = None
@@ -1830,7 +1920,10 @@ def i_select(m, alt, fr, ins, work):
             alt.opt = i
             m.split_reg(alt, fr, s["chan"], work)
         if s["dir"] == 1:
-            do_send(m, alt, ch, m.ev(alt, fr, s["send"]), ins["pos"])
+            if do_send(m, alt, ch, m.ev(alt, fr, s["send"]), ins["pos"]):
+                alt.ack = ch
+                alt.pending = tuple(res + recvs)
+                return PARK
         else:
             val, ok = do_recv(m, alt, ch, m.zero(s["et"]))
             k = sum(1 for t in states[:i] if t["dir"] == 2)
